@@ -2,6 +2,7 @@
 import builtins
 import itertools
 import os
+import random as _random
 import shutil
 import string
 import tempfile
@@ -62,16 +63,38 @@ def start_op(draw):
 @st.composite
 def cases(draw, tier):
     return {"platform": draw(st.sampled_from(["Ledger", "SGX"])),
+            "path_style": draw(st.sampled_from(PATH_STYLES + ["plain"])),
             "file0": draw(st.sampled_from(["present", "absent", "absent", "invalid"])),
             "starts": draw(st.lists(start_op(), min_size=1, max_size=6))}
 
 
+PATH_STYLES = ["plain", "dotdot-through-symlink", "redundant-separators"]
+
+
+def pin_path(style, name="pin.txt"):
+    """The configured location of the PIN file, as an operator may write it. All of them name
+    ONE file for the operating system; the harness reads and seeds the file through the very
+    same string."""
+    base = tmpdir()
+    if style == "dotdot-through-symlink":
+        # release layout: current -> releases/v5, PIN file kept beside the releases
+        os.makedirs(os.path.join(base, "releases", "v5"), exist_ok=True)
+        link = os.path.join(base, "current")
+        if not os.path.islink(link):
+            os.symlink(os.path.join("releases", "v5"), link)
+        return os.path.join(base, "current", "..", name)
+    if style == "redundant-separators":
+        os.makedirs(os.path.join(base, "conf"), exist_ok=True)
+        return base + "//conf/./" + name
+    return os.path.join(base, name)
+
+
 def single_starts(tier, seed):
     out = []
-    for plat, file0, force, reaction, ff, crash in itertools.product(
-            ["Ledger", "SGX"], ["present", "absent", "invalid"], [False, True], REACTIONS,
-            FILE_FAULTS, CRASHES):
-        out.append({"platform": plat, "file0": file0,
+    for style, plat, file0, force, reaction, ff, crash in itertools.product(
+            PATH_STYLES, ["Ledger", "SGX"], ["present", "absent", "invalid"], [False, True],
+            REACTIONS, FILE_FAULTS, CRASHES):
+        out.append({"platform": plat, "file0": file0, "path_style": style,
                     "starts": [{"force": force, "reaction": reaction, "file_fault": ff,
                                 "crash_at": crash}]})
     return out
@@ -192,7 +215,7 @@ def run_case(c):
     w.pin = DEFAULT
     w.retries = 3
     w.post_mode = SIGNER
-    pf = os.path.join(tmpdir(), "pin.txt")
+    pf = pin_path(c.get("path_style", "plain"))
     if os.path.exists(pf):
         os.unlink(pf)
     if c["file0"] == "present":
@@ -201,7 +224,8 @@ def run_case(c):
     elif c["file0"] == "invalid":
         with real_open(pf, "wb") as f:
             f.write(b"not a pin!")
-    labels = ["platform:" + c["platform"], "file0:" + c["file0"]]
+    labels = ["platform:" + c["platform"], "file0:" + c["file0"],
+              "path:" + c.get("path_style", "plain")]
     attempted_change = False
     for n, op in enumerate(c["starts"]):
         file_before = read_file(pf)
@@ -226,12 +250,18 @@ def run_case(c):
                 raise Violation("generated-pin-violates-policy", "%s: new PIN %r" % (where, pnew))
         if len(new_pins) > 1:
             raise Violation("several-pin-changes-in-one-start", where)
-        # the root cause recorded as a known finding: the device has the new PIN, the file not
-        if adopted and (file_after is None or file_after.strip() != dev_after):
-            raise Violation(KNOWN_SIG, "%s: device PIN is now %r, PIN file holds %r, configured "
-                            "default %r" % (where, dev_after, file_after, DEFAULT))
+        # the root cause recorded as a known finding: the device has the new PIN, the file not,
+        # because the process was interrupted (crash, file-system failure, lost acknowledgement)
+        # between the device's acknowledgement and the write. Without such an interruption the
+        # same end state is a different defect. Reported after the other clauses of this start.
+        lost = adopted and (file_after is None or file_after != dev_after)
+        interrupted = op["crash_at"] is not None or op["file_fault"] is not None or \
+            op["reaction"] in ("ack-lost", "comm", "timeout")
+        if lost and not interrupted:
+            raise Violation("pin-lost-without-any-fault", "%s: device PIN is now %r, PIN file "
+                            "holds %r" % (where, dev_after, file_after))
         # (a) the file changes only after an acknowledged change, and then holds exactly that PIN
-        if file_after != file_before:
+        if file_after != file_before and not lost:
             if not adopted:
                 raise Violation("file-changed-without-acknowledged-change",
                                 "%s: file %r -> %r, device PIN unchanged %r" % (
@@ -248,8 +278,9 @@ def run_case(c):
                     pin.get_pin() != res["pin_before"]:
                 raise Violation("failed-change-switched-pin-in-use", "%s: %r -> %r" % (
                     where, res["pin_before"], pin.get_pin()))
-        # (d) after any change attempt the manager stops instead of carrying on
-        if new_pins and res["out"] not in ("interrupt", "crash"):
+        # (d) after any change attempt the manager stops instead of carrying on (at start-up
+        # any exception out of the bring-up stops it)
+        if new_pins and res["out"] not in ("interrupt", "error", "crash"):
             raise Violation("manager-carried-on-after-change-attempt", where)
         if new_pins and res["out"] == "interrupt":
             after = False
@@ -259,6 +290,9 @@ def run_case(c):
                 elif after and e[0] == "apdu":
                     raise Violation("device-exchange-after-change-attempt",
                                     "%s: APDU %s" % (where, e[2].hex()))
+        if lost:
+            raise Violation(KNOWN_SIG, "%s: device PIN is now %r, PIN file holds %r, configured "
+                            "default %r" % (where, dev_after, file_after, DEFAULT))
         # (e) the PIN the next start would use opens the device
         nxt = file_after.strip() if file_after is not None else DEFAULT
         if nxt != dev_after and not (c["file0"] == "invalid" and file_after == b"not a pin!"):
@@ -342,7 +376,8 @@ def run_reconnect(c):
         w.faults[w.nex] = "read"
         out, exc = mw.serve_line(h, b'{"command":"blockchainState","version":5}')
         if exc is not None or mw.parse_reply(out) is None:
-            raise Violation("reconnect-setup", "%r %r" % (out[:80], exc))
+            # how a link failure is answered is C11's matter; this scenario needs it answered
+            return Out(labels + ["reconnect-precondition-not-met"], False)
         w.mode = BOOT                              # the device was power-cycled meanwhile
         w.unlocked = False
         mark = len(w.log)
@@ -358,14 +393,19 @@ def run_reconnect(c):
     adopted = dev_after != dev_before
     where = "reconnection %r: reply %r, handler raised %s" % (c, out[:60], type(exc).__name__)
     if not new_pins:
-        raise Violation("reconnect-no-change-attempt", where)
+        # no PIN change was attempted inside the request: nothing of this property applies
+        return Out(labels + ["reconnect-no-change-attempt"], False)
+    labels.append("reconnect-change")
     labels.append("change:" + c["reaction"])
     for pnew in new_pins:
         if not policy_ok(pnew):
             raise Violation("generated-pin-violates-policy", "%s: %r" % (where, pnew))
-    if adopted and (file_after is None or file_after.strip() != dev_after):
-        raise Violation(KNOWN_SIG, "%s: device PIN %r, file %r" % (where, dev_after, file_after))
-    if file_after != file_before and (not adopted or file_after != dev_after):
+    lost = adopted and (file_after is None or file_after != dev_after)
+    interrupted = c["file_fault"] is not None or c["reaction"] in ("ack-lost", "comm", "timeout")
+    if lost and not interrupted:
+        raise Violation("pin-lost-without-any-fault", "%s: device PIN %r, file %r" % (
+            where, dev_after, file_after))
+    if file_after != file_before and not lost and (not adopted or file_after != dev_after):
         raise Violation("file-changed-without-acknowledged-change", "%s: %r -> %r" % (
             where, file_before, file_after))
     # (d) after the change attempt the manager stops: the request handler asks for a shutdown
@@ -374,6 +414,8 @@ def run_reconnect(c):
         raise Violation("manager-carried-on-after-change-attempt",
                         "%s: the PIN change attempt happened inside a request and the manager "
                         "did not stop" % where)
+    if lost:
+        raise Violation(KNOWN_SIG, "%s: device PIN %r, file %r" % (where, dev_after, file_after))
     nxt = file_after.strip() if file_after is not None else DEFAULT
     if nxt != dev_after:
         raise Violation("pin-unrecoverable", "%s: next start would use %r, device has %r" % (
@@ -392,56 +434,100 @@ def rng_streams(draw, tier):
         st.text(alphabet=digits, min_size=8, max_size=8),
         st.text(alphabet=chars, min_size=8, max_size=8),
         st.text(alphabet=digits + "abXY", min_size=8, max_size=8)), min_size=1, max_size=6))
-    good = draw(st.text(alphabet=chars, min_size=8, max_size=8)).encode()
-    i = draw(st.integers(0, 7))
-    odd = draw(st.one_of(st.integers(0, 255), st.sampled_from([10, 13, 0, 32, 9, 0x80, 0xFF])))
-    return {"stream": "".join(blocks),
-            "probe": draw(st.one_of(st.binary(max_size=12),
-                                    st.text(alphabet=chars + "!_ ", max_size=10).map(
-                                        lambda t: t.encode()),
-                                    st.just(good), st.just(good[:i] + bytes([odd]) + good[i + 1:]),
-                                    st.just(good[:7] + bytes([odd])),
-                                    st.just(good + bytes([odd]))))}
+    return {"stream": "".join(blocks)}
+
+
+class ScriptedRandom(_random.Random):
+    """A random source that answers from a script of characters wherever the population it is
+    asked to choose from is visible (choice / choices / sample), whatever the call style; any
+    other use falls back on a generator seeded from the script."""
+
+    def __init__(self, stream):
+        super().__init__(0)
+        self.stream = list(stream)
+        self.pos = 0
+        self.scripted = 0
+
+    def seed(self, *a, **k):          # the code may re-seed: the script stays
+        return None
+
+    def _next(self, seq):
+        seq = list(seq)
+        if self.pos < len(self.stream):
+            ch = self.stream[self.pos]
+        else:
+            ch = "aZ3kQ9xB"[(self.pos - len(self.stream)) % 8]    # guarantees termination
+        self.pos += 1
+        self.scripted += 1
+        if ch in seq:
+            return ch
+        if isinstance(ch, str) and ch.encode() in seq:
+            return ch.encode()
+        if isinstance(ch, str) and len(ch) == 1 and ord(ch) in seq:
+            return ord(ch)
+        return seq[ord(ch) % len(seq)]     # a narrower population: some member of it
+
+    def choice(self, seq):
+        return self._next(seq)
+
+    def choices(self, population, weights=None, *, cum_weights=None, k=1):
+        return [self._next(population) for _ in range(k)]
+
+    def sample(self, population, k, *, counts=None):
+        pop = list(population)
+        out = []
+        for _ in range(k):
+            x = self._next(pop)
+            pop.remove(x)
+            out.append(x)
+        return out
+
+
+class _ModuleLike:
+    """Stands where the `random` (or `secrets`) module stands in ledger.pin."""
+
+    def __init__(self, rnd, real):
+        self._rnd, self._real = rnd, real
+
+    def SystemRandom(self, *a):
+        return self._rnd
+
+    def Random(self, *a):
+        return self._rnd
+
+    def __getattr__(self, name):
+        if hasattr(self._rnd, name):
+            return getattr(self._rnd, name)
+        return getattr(self._real, name)
 
 
 def run_generator(c):
-    stream = list(c["stream"])
-    pos = [0]
-
-    class FakeRandom:
-        @staticmethod
-        def seed(*a):
-            return None
-
-        @staticmethod
-        def choice(seq):
-            if pos[0] < len(stream):
-                ch = stream[pos[0]]
-            else:
-                ch = "aZ3kQ9xB"[(pos[0] - len(stream)) % 8]    # guarantees termination
-            pos[0] += 1
-            if ch not in seq:
-                raise Violation("pin-alphabet-changed", "generator draws from %r" % (seq,))
-            return ch
-    saved = lpin.random
-    lpin.random = FakeRandom
+    rnd = ScriptedRandom(c["stream"])
+    saved = {}
+    for modname in ("random", "secrets"):
+        if hasattr(lpin, modname):
+            saved[modname] = getattr(lpin, modname)
+            setattr(lpin, modname, _ModuleLike(rnd, saved[modname]))
     try:
-        pin = lpin.BasePin.generate_pin()
+        pins = [lpin.BasePin.generate_pin() for _ in range(2)]
     finally:
-        lpin.random = saved
-    if type(pin) is not bytes or not policy_ok(pin):
-        raise Violation("generated-pin-violates-policy", "random stream %r produced PIN %r" % (
-            c["stream"][:pos[0]], pin))
-    probe = c["probe"]
-    if lpin.BasePin.is_valid(probe) != policy_ok(probe):
-        raise Violation("pin-validity-predicate", "is_valid(%r) = %s, policy says %s" % (
-            probe, lpin.BasePin.is_valid(probe), policy_ok(probe)))
+        for modname, real in saved.items():
+            setattr(lpin, modname, real)
+    for pin in pins:
+        if type(pin) is not bytes or not policy_ok(pin):
+            raise Violation("generated-pin-violates-policy", "random script %r produced PIN %r"
+                            % (c["stream"][:rnd.pos], pin))
     first = c["stream"][:8].encode()
-    labels = ["gen:first-block-valid" if policy_ok(first) else "gen:first-block-rejected"]
-    return Out(labels, not policy_ok(first))
+    labels = ["gen:scripted" if rnd.scripted else "gen:rng-not-scripted"]
+    if rnd.scripted:
+        labels.append("gen:first-block-valid" if policy_ok(first) else
+                      "gen:first-block-rejected")
+    return Out(labels, rnd.scripted > 0 and not policy_ok(first))
 
 
-REQUIRED_LABELS = {t: ["reconnect", "gen:first-block-rejected", "gen:first-block-valid", "platform:Ledger", "platform:SGX", "file0:present", "file0:absent",
+REQUIRED_LABELS = {t: ["reconnect", "reconnect-change", "path:plain",
+                       "path:dotdot-through-symlink", "path:redundant-separators", "gen:first-block-rejected|gen:rng-not-scripted",
+                       "gen:first-block-valid|gen:rng-not-scripted", "platform:Ledger", "platform:SGX", "file0:present", "file0:absent",
                        "file0:invalid", "out:serve", "out:interrupt", "out:crash",
                        "out:pinerror", "change:accept", "change:refuse", "change:swerr",
                        "change:comm", "change:timeout", "known-finding-hit"]
